@@ -160,6 +160,70 @@ theorem indexed_ref_hits_one_partial (prog : List Decl) (hnonull : (flattenList 
     ((evalWith .count prog).getEdgesNil m eid).length ≤ 1 :=
   getEdgesNil_hits_one _ (fun m' => by rw [edgesOf_eq]; exact count_inv_partial prog hnonull m') m eid i hi
 
+/-! #### a reference to a missing index is an error -/
+
+theorem getEdgesNil_no_index (ir : IR) (m : Owner) (eid : EID) (i : Nat) (hi : eid.idx = some i)
+    (hno : ∀ x ∈ ir.edges, x.idx ≠ i) : ir.getEdgesNil m eid = [] := by
+  have hf : ∀ (m' : Owner) (eid' : EID), eid'.idx = some i → (ir.edgesOf m').filter (fun e => e.matchesEID eid') = [] := by
+    intro m' eid' hi'
+    rw [List.filter_eq_nil_iff]
+    intro x hx
+    have hx' : x ∈ ir.edges := (List.mem_filter.mp hx).1
+    intro hm
+    exact hno x hx' (((matchesEID_iff x eid').mp hm).1 i hi')
+  unfold IR.getEdgesNil
+  split
+  · rfl
+  · dsimp only
+    split
+    · exact hf _ _ hi
+    · split
+      · split
+        · exact hf _ _ hi
+        · rfl
+      · rfl
+
+/-- when no stored edge carries index `i`, the lookup of an indexed reference `(…)[i]` finds nothing … -/
+theorem getEdgesRef_no_index (ir : IR) (scope : Owner) (e : EdgeAst) (i : Nat) (hno : ∀ x ∈ ir.edges, x.idx ≠ i) :
+    (ir.getEdgesRef scope e (some i)).2 = [] := by
+  unfold IR.getEdgesRef
+  split
+  · rfl
+  · split
+    · rfl
+    · rename_i h1
+      have e1 := descendLookup_edges' h1
+      split
+      · rename_i h2
+        have e2 := (EnsureField_edges' h2).trans e1
+        split
+        · rename_i ir3 df h3
+          have e3 := (EnsureField_edges' h3).trans e2
+          simp only [List.map_eq_nil_iff]
+          exact getEdgesNil_no_index ir3 _ _ i rfl (by rw [e3]; exact hno)
+        · rfl
+      · rfl
+
+/-- … and the declaration is rejected with `indexed edge does not exist` (nothing is opened, nothing else is reported) -/
+theorem missing_index_error (rule : IdxRule) (ir : IR) (scope : Owner) (e : EdgeAst) (i : Nat) (d : FDecl)
+    (hk : d.key = []) (he : d.edge = some e) (hi : d.idx = some i) (hnn : isNull d = false)
+    (hno : ∀ x ∈ ir.edges, x.idx ≠ i) :
+    (ir.evalDecl rule scope d).2 = [] ∧
+    ∃ ir' : IR, (ir.evalDecl rule scope d).1 = ir'.addErr .idxMissing ∧ ir'.errs = ir.errs ∧ ir'.edges = ir.edges := by
+  have hmiss := getEdgesRef_no_index { ir with next := ir.next + 1 } scope e i (by simpa using hno)
+  have hedges := getEdgesRef_edges { ir with next := ir.next + 1 } scope e (some i)
+  have herrs : ({ ir with next := ir.next + 1 } : IR).getEdgesRef scope e (some i) |>.1.errs = ir.errs := by
+    have := getEdgesRef_errs { ir with next := ir.next + 1 } scope e (some i)
+    simpa using this
+  unfold IR.evalDecl
+  simp only [he, hk, List.isEmpty_nil, if_true, hnn, Bool.false_eq_true, if_false, hi, Option.isSome_some]
+  generalize hres : ({ ir with next := ir.next + 1 } : IR).getEdgesRef scope e (some i) = res at hmiss hedges herrs
+  obtain ⟨ir1, ea⟩ := res
+  simp only at hmiss hedges herrs
+  subst hmiss
+  simp only [List.isEmpty_nil, if_true]
+  exact ⟨trivial, ir1, rfl, herrs, by simpa using hedges⟩
+
 /-- the stated goal, over the index rule read off the source on this run -/
 def C11_full_statement : Prop :=
   ∀ (prog : List Decl) (m : Owner) (eid : EID) (i : Nat), eid.idx = some i → ((eval prog).getEdgesNil m eid).length ≤ 1
